@@ -131,6 +131,10 @@ UNITS = {
     'cli_wiring': {
         'template': 'cli_wiring.vrs', 'backend': 'verus',
         'serves': ['C15'],
+        'fn_props': {
+            r'^verif_lift_cgr_': ['C15', 'C12', 'C11'],
+            r'^verif_lift_min_arm$': ['C15', 'C16'],
+        },
     },
     'pyglue': {
         'template': 'pyglue.vrs', 'backend': 'verus',
@@ -196,7 +200,7 @@ PROPS = {
                         'String::join with the delimiter and the write of the header line (std)'],
     },
     'C04': {
-        'units': ['oligo_vec', 'float_kani'], 'deps': ['kmer_gen', 'posmaps'], 'replay': 'c04',
+        'units': ['oligo_vec', 'float_kani'], 'deps': ['kmer_gen', 'posmaps', 'mmap_rows', 'batch_loops'], 'replay': 'c04',
         'level_text': 'Verus proves for the verbatim accumulation loop (three copies: oligo.rs vectorise_one, oligocgr.rs seq_to_kmer, pybindings vectorise_one), '
                       'every byte string shorter than 2^53 and every k in 1..=15: the row has one value per canonical column and column i holds of_nat(number of valid '
                       'windows whose canonical code is the column k-mer), raw, or divided by fmax(1, total valid windows) when normalised (all-zero row when there is no window); '
@@ -230,7 +234,7 @@ PROPS = {
         'not_reached': ['sub-square containment beyond one halving (j > 1) and exact dyadic values', 'file-level batching/ordering of cgr.rs::vectorise (see C05-style loop contracts if listed)', 'pyo3 mapping of Err to ValueError'],
     },
     'C08': {
-        'units': ['cov_vec', 'batch_loops', 'float_kani'], 'deps': ['kmer_gen'], 'replay': 'c08',
+        'units': ['cov_vec', 'batch_loops', 'float_kani'], 'deps': ['kmer_gen', 'count_route'], 'replay': 'c08',
         'level_text': 'Verus proves for the verbatim CovComputer::vectorise_one, every byte string, every k <= 31, every bin size and bin count >= 1 and every counts table: the row has '
                       'bin-count entries and entry b is of_nat(number of valid windows whose canonical k-mer has multiplicity c in the table with min(c / bin-size, bin-count - 1) == b), absent k-mers '
                       'counting 0, raw or divided by fmax(1, total); the unchecked index is in bounds. For the lifted batch loop of compute_coverages: every record is rendered exactly once, in reader order, including the final flush.',
@@ -268,7 +272,7 @@ PROPS = {
         'not_reached': ['worker interleavings (assumed primitives)', 'container equivalence (bio/flate2)', 'closure glue between the lifted fragments'],
     },
     'C12': {
-        'units': ['oligocgr_vec', 'oligo_vec', 'header', 'cgr', 'batch_loops', 'float_kani'], 'deps': ['kmer_gen', 'posmaps', 'n2k'], 'replay': 'c12',
+        'units': ['oligocgr_vec', 'oligo_vec', 'header', 'cgr', 'batch_loops', 'float_kani', 'cli_wiring'], 'deps': ['kmer_gen', 'posmaps', 'n2k'], 'replay': 'c12',
         'level_text': 'Verus proves for the verbatim OligoCgrComputer::vectorise_one: the row has one triple per canonical column, in column order; (x,y) is the chaos-game end point '
                       '(midpoint recurrence from the centre) of the column k-mer text - a function of the column alone, hence the same in every row - and f is exactly the value the oligo row contract (C04, '
                       'same spec, proved for seq_to_kmer) gives that column; the record is never rejected. The k-mer table, the private cgr_maps copy and the batch loop of this subcommand are under the C03/C11/C05 contracts.',
